@@ -18,6 +18,8 @@ pub fn new<T>(memory_capacity: usize) -> (Sender<T>, Receiver<T>) {
     // along with a shared counter for memory usage.
     // We send the memory usage along with each message, so the receiving end doesn't need to re-calculate this
     let (s, r) = crossbeam::channel::unbounded::<(T, usize)>();
+    #[cfg(rjrssync_verif)]
+    let memory_capacity = verif_capacity_override().unwrap_or(memory_capacity);
     let counter = Arc::new(AtomicUsize::new(0));
     (
         Sender::<T> { inner: s, memory_capacity, channel_memory_usage: counter.clone() },
@@ -26,6 +28,21 @@ pub fn new<T>(memory_capacity: usize) -> (Sender<T>, Receiver<T>) {
 }
 
 
+
+/// [verification hook] Lets a test shrink the capacity so that "more than the capacity is queued"
+/// is reachable with small files.
+#[cfg(rjrssync_verif)]
+fn verif_capacity_override() -> Option<usize> {
+    std::env::var("RJRSSYNC_VERIF_CAPACITY").ok().and_then(|v| v.parse().ok())
+}
+
+#[cfg(rjrssync_verif)]
+impl<T> Sender<T> {
+    /// [verification hook] The accounted size of what is currently queued.
+    pub fn verif_queued_bytes(&self) -> usize {
+        self.channel_memory_usage.load(Ordering::Relaxed)
+    }
+}
 
 pub struct Sender<T> {
     inner: crossbeam::channel::Sender<(T, usize)>,
